@@ -176,7 +176,7 @@ impl C14 {
     fn run_one(&self, made: &Made, reference: &[u8], wp: &WritePlan, ctx: &mut RunCtx) -> Option<Violation> {
         let kind = made.spec.kind;
         let sink = SimWrite::new(wp.clone());
-        let res = catch(|| kinds::write_to(kind, &made.model, sink.clone()));
+        let res = crate::kernel::fresh_thread(|| catch(|| kinds::write_to(kind, &made.model, sink.clone())));
         let c = sink.counters();
         let s = &mut *ctx.stats;
         s.evaluations += 1;
@@ -362,7 +362,7 @@ impl Check for C14 {
         }
         // fault-free reference run on the simulated sink: counts the calls; (b) decodes to the model
         let sink0 = SimWrite::new(WritePlan::plain());
-        let r0 = catch(|| kinds::write_to(kind, &made.model, sink0.clone()));
+        let r0 = crate::kernel::fresh_thread(|| catch(|| kinds::write_to(kind, &made.model, sink0.clone())));
         match r0 {
             Ok(Ok(())) => {}
             Ok(Err(e)) => panic!("harness: fault-free write of {:?} failed: {e}", p.file),
